@@ -4,6 +4,7 @@ package req
 
 import (
 	"bytes"
+	"crypto/sha256"
 	"crypto/tls"
 	"fmt"
 	"io"
@@ -232,6 +233,18 @@ func c01GenE2E(r *rand.Rand) *c01E2ECase {
 		}
 	}
 	tc.cHdr = hdr(3)
+	if r.Intn(10) == 0 {
+		// round 7 — header-block size class: one field value of poorly compressible text around and
+		// beyond the 16 KiB HTTP/2 frame (the header block then travels as HEADERS + CONTINUATION
+		// frames; END_STREAM of a body-less request rides on the HEADERS frame), well below every
+		// origin's 1 MiB header limit
+		n := verifh.Pick(r, []int{16000, 16384, 17000, 20000, 33000, 50000}) + r.Intn(3) - 1
+		b := make([]byte, n)
+		for i := range b {
+			b[i] = "XZ~|^{}<>#$&*?!"[r.Intn(15)]
+		}
+		tc.rHdr["X-Huge"] = []string{string(b)}
+	}
 	if r.Intn(4) == 0 {
 		tc.nonCanon = map[string]string{verifh.Pick(r, []string{"x-lower", "X-mIxEd", "x_nc", "lowercase-only"}): verifh.Pick(r, c01E2EHdrValues)}
 	}
@@ -451,6 +464,7 @@ func c01View(s *c01Seen, callerSetAE bool) string {
 			lines = append(lines, lk+": "+strings.Trim(v, " \t"))
 		}
 	}
+	c01AbbrevLines(lines)
 	sort.Strings(lines)
 	return fmt.Sprintf("%s %s\n%s\nbody %s", s.method, s.ruri, strings.Join(lines, "\n"), c01Blob(s.body))
 }
@@ -560,12 +574,23 @@ func c01Expected(tc *c01E2ECase) (method, ruri string, lines []string, body []by
 		}
 		lines = append(lines, "cookie: "+strings.Join(crumbs, "; "))
 	}
+	c01AbbrevLines(lines)
 	sort.Strings(lines)
 	body = tc.body
 	if tc.method == "HEAD" || tc.method == "OPTIONS" || tc.bodyKind == "none" {
 		body = nil
 	}
 	return method, ruri, lines, body, true
+}
+
+// c01AbbrevLines shows a field line longer than 1 KiB (the header-block size class) as its first
+// 48 bytes + length + SHA-256, on both sides of the comparison: exact, and keeps the evidence small.
+func c01AbbrevLines(lines []string) {
+	for i, l := range lines {
+		if len(l) > 1024 {
+			lines[i] = fmt.Sprintf("%s…[%d bytes, sha256 %x]", l[:48], len(l), sha256.Sum256([]byte(l)))
+		}
+	}
 }
 
 // c01SortCookies sorts the cookie-pairs of the view's "cookie: " line (multiset comparison).
@@ -752,6 +777,9 @@ func TestVerif_C01_e2e(t *testing.T) {
 		tc := c01GenE2E(r)
 		if verifh.Thorough() && i%200 == 0 && tc.bodyKind != "none" {
 			tc.body = c01GenBody(1<<20+r.Intn(3)-1, 7, 3)
+			if tc.edited != nil && !strings.Contains(tc.edit, "body") {
+				tc.edited.body = tc.body // the retry hook leaves the body alone: the edited description carries the same one
+			}
 		}
 		comp, ka := r.Intn(2) == 0, r.Intn(3) != 0
 		method, ruri, lines, body, _ := c01Expected(tc)
@@ -909,12 +937,18 @@ func TestVerif_C01_e2e(t *testing.T) {
 		if len(tc.order) > 0 {
 			s.Count("header-order")
 		}
+		if len(tc.rHdr["X-Huge"]) > 0 {
+			s.Count("header-block>16K")
+			if body == nil {
+				s.Count("header-block>16K:bodyless")
+			}
+		}
 		if !ok && class == "" {
 			failures++
 		}
 		s.Observe(fmt.Sprintf("e2e-%d", i), ok, class, allSeen, human, detail)
 	}
-	s.Need(t, "h1:fired", "h2:fired", "h3:fired", "body>=4K", "header-order", "retried-attempt", "edited-attempt", "edit:rpath", "edit:cpath", "edit:query", "edit:header", "edit:cookie", "edit:body", "edit:url", "cookie-lines", "cookie-lines+objects")
+	s.Need(t, "h1:fired", "h2:fired", "h3:fired", "body>=4K", "header-order", "retried-attempt", "edited-attempt", "edit:rpath", "edit:cpath", "edit:query", "edit:header", "edit:cookie", "edit:body", "edit:url", "cookie-lines", "cookie-lines+objects", "header-block>16K", "header-block>16K:bodyless")
 	s.Finish()
 }
 
